@@ -49,6 +49,16 @@ def crafted(z, pair, zs_all=None):
         base_rec = g.record(zl.nodes)
         inner = bytes.fromhex(pair.impl(["zoo-write %s 2 0 %s" % (zl.name, zl.ops_text([("a", set_last(base_rec, b"in")), ("w",), ("c",)])[0])])[0].split(" ")[0])
         out.append(filelevel.Case(zl, 2, 0, [("a", set_last(base_rec, inner + b"tail-of-the-value")), ("w",), ("c",)], "embedded-complete-file-in-last-value"))
+    # the trailer of a TWO-row-group file (same first row group) inside a value of the second row group: the prefix ending
+    # there has a footer that lists more row groups than the prefix holds
+    r1 = ("struct", [("leaf", zoolib.le(7, 8)), ("some", ("leaf", b"first")), ("list", [("leaf", zoolib.le(1, 4))])])
+    r2s = ("struct", [("leaf", zoolib.le(8, 8)), ("some", ("leaf", b"second")), ("list", [])])
+    for codec in (0, 1):
+        f2 = bytes.fromhex(pair.impl(["zoo-write %s 2 %d %s" % (z.name, codec, z.ops_text([("a", r1), ("w",), ("a", r2s), ("w",), ("c",)])[0])])[0].split(" ")[0])
+        flen = int.from_bytes(f2[-8:-4], "little")
+        t2 = f2[-(flen + 8):]
+        r2 = ("struct", [("leaf", zoolib.le(8, 8)), ("some", ("leaf", t2)), ("list", [])])
+        out.append(filelevel.Case(z, 2, codec, [("a", r1), ("w",), ("a", r2), ("w",), ("c",)], "embedded-two-rowgroup-trailer-in-second-row-group"))
     for tag, payload in [("embedded-footer-no-magic", trailer), ("embedded-complete-trailer", trailer + b"PAR1"),
                          ("embedded-footer-far-length-no-magic", far), ("embedded-footer-far-length", far_magic)] + near:
         rec = ("struct", [("leaf", zoolib.le(7, 8)), ("some", ("leaf", payload)), ("list", [])])
